@@ -152,10 +152,10 @@ def polyline_translate_use(prog, rep):
             rep.fail("R07.3", key, "anchor lost", status="undecided")
             continue
         n += 1
-        fam = [f]
+        fam = [f] + prog.new_helpers_of(f)   # helpers introduced by an edit read the offset on the function's behalf
         i = 0
         while i < len(fam):
-            fam.extend(prog.closures_of.get(fam[i].id, []))
+            fam.extend(c for c in prog.closures_of.get(fam[i].id, []) if c not in fam)
             i += 1
         reads = False
         for g in fam:
@@ -173,6 +173,31 @@ def polyline_translate_use(prog, rep):
                             fs = [e["f"] for e in pl["p"] if isinstance(e, dict) and "f" in e]
                             if adt and fs and fs[0] < len(adt["variants"][0]["fields"]) and adt["variants"][0]["fields"][fs[0]]["name"] == "translate":
                                 reads = True
+                        # general walk along the projection (fields of fields, enum variants such as
+                        # `StyledIter::Thick { translate, .. }` stored in a field of the iterator)
+                        cur, var = lty, None
+                        for e in pl["p"]:
+                            while isinstance(cur, dict) and "ref" in cur:
+                                cur = cur["ref"]
+                            if e == "*":
+                                continue
+                            if isinstance(e, dict) and "down" in e:
+                                var = e.get("name")
+                                continue
+                            if isinstance(e, dict) and "f" in e:
+                                a_ = prog.adts.get(cur.get("adt")) if isinstance(cur, dict) else None
+                                if not a_:
+                                    break
+                                vs = [v for v in a_["variants"] if v["name"] == var] if var is not None else a_["variants"][:1]
+                                var = None
+                                if not vs or e["f"] >= len(vs[0]["fields"]):
+                                    break
+                                fld = vs[0]["fields"][e["f"]]
+                                if fld["name"] == "translate" and cur.get("adt", "").startswith(PL):
+                                    reads = True
+                                cur = fld["ty"]
+                            else:
+                                break
                 for uv in g.body.get("upvars", []):
                     if "translate" in uv["name"]:
                         reads = True
